@@ -4,6 +4,7 @@ go 1.26.4
 
 require (
 	github.com/fxamacker/cbor v1.5.1
+	github.com/multiformats/go-multihash v0.2.3
 	github.com/privacybydesign/gabi v0.0.0
 )
 
@@ -12,7 +13,6 @@ require (
 	github.com/go-errors/errors v1.5.1 // indirect
 	github.com/klauspost/cpuid/v2 v2.3.0 // indirect
 	github.com/mr-tron/base58 v1.3.0 // indirect
-	github.com/multiformats/go-multihash v0.2.3 // indirect
 	github.com/multiformats/go-varint v0.1.0 // indirect
 	github.com/sirupsen/logrus v1.9.4 // indirect
 	github.com/spaolacci/murmur3 v1.1.0 // indirect
